@@ -123,3 +123,15 @@ def slots_indexable(a, b):
 def gen(xs):
     for x in xs:
         yield x
+
+
+class IterOnly:
+    """A re-iterable view that offers nothing but __iter__ (no __len__, __contains__, __next__, __getitem__): an iterable
+    that is neither a collection nor an iterator.  Its elements live in an attribute, so being mistaken for a structured
+    object is visible."""
+
+    def __init__(self, xs):
+        self.rows = list(xs)
+
+    def __iter__(self):
+        return iter(self.rows)
